@@ -446,8 +446,12 @@ Proof.
 Qed.
 
 Lemma union_split ts j v :
-  ld (TUnion ts) j = Ok v -> (j = VNone /\ v = VNone) \/ union_scan cfg ld j ts ts = Ok v.
-Proof. destruct j; cbn [load]; intros H; try (right; exact H). left. inversion H. split; reflexivity. Qed.
+  ld (TUnion ts) j = Ok v ->
+  (j = VNone /\ v = VNone /\ existsb is_tnone ts = true) \/ union_scan cfg ld j ts ts = Ok v.
+Proof.
+  destruct j; cbn [load]; intros H; try (right; exact H).
+  destruct (existsb is_tnone ts) eqn:E; [|right; exact H]. left. inversion H. repeat split; reflexivity.
+Qed.
 
 Lemma opt_split t j v :
   ld (TOptional t) j = Ok v -> (j = VNone /\ v = VNone) \/ ld t j = Ok v.
@@ -534,18 +538,16 @@ Proof.
     apply COptSome. eapply IH; eauto.
   - (* TUnion *)
     inversion Hwf as [| | | | | | | | | | | | | |? Hw| | | |]; subst.
-    apply union_split in E as [[-> ->]|E].
-    + destruct lax eqn:El; [apply LUnionNone; reflexivity|].
-      specialize (Hsafe eq_refl). cbn [safe_ty] in Hsafe. apply andb_true_iff in Hsafe as [Hex _].
-      apply existsb_exists in Hex as (t' & Hin & Ht'). destruct t'; try discriminate.
+    apply union_split in E as [(-> & -> & Hex)|E].
+    + apply existsb_exists in Hex as (t' & Hin & Ht'). destruct t'; try discriminate.
       eapply CUnion; [exact Hin | constructor].
     + apply union_scan_src in E as (t' & Hin & Hn & Hl).
       assert (Hin' : In t' ts) by tauto.
       eapply CUnion; [exact Hin'|].
       eapply Forall_forall in IH; [|exact Hin']. eapply Forall_forall in Hw; [|exact Hin'].
       eapply IH; [assumption | | exact Hl].
-      intros El. specialize (Hsafe El). cbn [safe_ty] in Hsafe. apply andb_true_iff in Hsafe as [_ Hall].
-      eapply forallb_forall in Hall; [|exact Hin']. rewrite Hn in Hall. exact Hall.
+      intros El. specialize (Hsafe El). cbn [safe_ty] in Hsafe.
+      eapply forallb_forall in Hsafe; [|exact Hin']. rewrite Hn in Hsafe. exact Hsafe.
   - eapply load_literal_ok; exact E.
   - (* TNamedTuple *)
     inversion Hwf as [| | | | | | | | | | | | | | | |? ? Hw Hlen| |]; subst.
